@@ -215,7 +215,7 @@ def run_case(spec, ctx):
                     continue
                 parts = T.split_slots(ls, o)
                 line_ips = [s[1] for s in ls["slots"] if s[0] == "ip"]
-                f9 = _f9_shape(line_ips, issued_ip | (set(x["obfuscated"] for x in ipobf.mapping()) if ipobf else set()))
+                f9 = _f9_shape(line_ips, dict((x["original"], x["obfuscated"]) for x in ipobf.mapping()) if ipobf else {})
                 any_f9 = any_f9 or f9
                 if parts is None:
                     ctx.violation(KNOWN_F9 if f9 else "output-skeleton-broken", {"line": line, "output": o})
@@ -262,6 +262,7 @@ def run_case(spec, ctx):
             if ipobf:
                 issued_ip |= set(x["obfuscated"] for x in ipobf.mapping())
         ctx.count("invariant_evaluations", _STATS["inv"] - inv0)
+        ipobf_final = cleaner.obfuscate.get("ip")
         # ---- consistency / injectivity ---------------------------------
         for fam in seen:
             rev = {}
@@ -272,6 +273,12 @@ def run_case(spec, ctx):
                                   {"kind": fam, "original": orig, "substitutes": dict((s, w["output"]) for s, w in list(subs.items())[:3])})
                 for s, w in subs.items():
                     if s == orig and fam != "kw":
+                        if fam == "ip" and ipobf_final is not None and any(x["original"] == orig and x["obfuscated"] == orig for x in ipobf_final.mapping()):
+                            # the next free substitute happened to BE this original (the n-th address of the run is
+                            # 10.230.230.n): consistently mapped to itself, which is a substitute issued by the obfuscator
+                            ctx.count("ip_originals_mapped_to_themselves")
+                            rev.setdefault(s, set()).add(orig)
+                            continue
                         if fam == "mac":
                             mobf = cleaner.obfuscate.get("mac")
                             if mobf and orig in mobf._mac_db.values():
@@ -336,11 +343,16 @@ def run_case(spec, ctx):
         shutil.rmtree(base, ignore_errors=True)
 
 
-def _f9_shape(line_ips, issued):
-    """the recorded known finding: an original IPv4 on the line is textually contained in a substitute the
-    obfuscator has issued (so the sequential str.replace re-replaces that substitute)"""
-    for o in line_ips:
-        for s in issued:
-            if o in s:
+def _f9_shape(line_ips, mapping):
+    """the recorded known finding, by mechanism: TWO different originals on one line, one of them textually contained
+    in the substitute of the other (the sequential str.replace then re-replaces inside that substitute).  An original
+    that merely equals a substitute issued earlier - alone on its line - is NOT this shape."""
+    for a in line_ips:
+        sa = mapping.get(a)
+        if not sa:
+            continue
+        for b in line_ips:
+            # ... or the same original twice on the line when its own substitute contains it (10.230.230.1 -> 10.230.230.10)
+            if b in sa and (b != a or (line_ips.count(a) >= 2 and sa != a)):
                 return True
     return False
